@@ -1461,6 +1461,28 @@ val assemble : (n list * fval) list -> ycfg -> ycfg option
 
 val read_one_liner : n list -> ycfg option
 
+val oeqb : ('a1 -> 'a1 -> bool) -> 'a1 option -> 'a1 option -> bool
+
+val pair_eqb : (n * n) -> (n * n) -> bool
+
+val wait_eqb : ((n * n) * n list option) -> ((n * n) * n list option) -> bool
+
+val env_get : n list -> (n list * n list) list -> n list option
+
+val env_eqb : (n list * n list) list -> (n list * n list) list -> bool
+
+val keep : ('a1 -> 'a1 -> bool) -> 'a1 option -> 'a1 option -> 'a1 option
+
+val ydiff : ycfg -> ycfg -> ycfg
+
+val oor : 'a1 option -> 'a1 option -> 'a1 option
+
+val ywith_defaults : ycfg -> ycfg -> ycfg
+
+val ycfg_is_empty : ycfg -> bool
+
+val gen_config_suffix : ycfg -> ycfg -> n list
+
 val gen_cram_block :
   mode -> n list -> n list list -> n list list -> n -> block
 
